@@ -340,8 +340,10 @@ func runCore(t *testing.T, cfg coreCfg) {
 			}
 		}
 	}
+	only := -1
+	fmt.Sscanf(os.Getenv("VERIF_ONLY"), "%d", &only) // reproduce one history of a run
 	for s := 0; s < seeds; s++ {
-		if s%nShards != shard {
+		if s%nShards != shard || (only >= 0 && s != only) {
 			continue
 		}
 		seed := base*100003 + int64(s)
